@@ -16,6 +16,12 @@ def gen_stage_world(rng, **force):
              lfusion=rng.random() < 0.4, rfusion=rng.random() < 0.4, pseudo=rng.random() < 0.85,
              ambiguous=rng.random() < 0.5, cn_subset=rng.random() < 0.3,
              multiallelic=rng.random() < 0.5, orphan_core=rng.random() < 0.5)
+    if rng.random() < 0.3:
+        # two catalogued variants a few bases apart or at one position (an insertion and a substitution on
+        # its anchor base are different variants of one database position)
+        o["close_pair"] = rng.choice(["snp_ins_anchor", "snp_ins_anchor", "snp_after_ins", "ins_del", "snp_before_del",
+                                      "snp_snp", "ins_ins"])
+        o["close_func"] = rng.random() < 0.7  # both of them core variants
     o.update(force)
     if not o["pseudo"]:
         o["lfusion"] = o["rfusion"] = False
@@ -141,5 +147,10 @@ def random_planted(rng, gene, cn):
             out.append(same[0])  # two copies of the very same minor allele
             continue
         a = rng.choice(cands)
+        # alleles with two core variants at one database position (insertion + substitution on its anchor)
+        # are rare in a catalogue: plant them more often than chance would
+        twosite = [x for x in cands if len({m.pos for m in x.func_muts}) < len(x.func_muts)]
+        if twosite and rng.random() < 0.5:
+            a = rng.choice(twosite)
         out.append((a.name, rng.choice(sorted(a.minors))))
     return out
